@@ -183,8 +183,29 @@ func TestC02(t *testing.T) {
 				c.Doc.Cues[0].Lines[0].Runs[0].Text += strings.Repeat("x", n)
 			})
 		}
+		blankRuns := 0
+		if rapid.IntRange(0, 2).Draw(rt, "blankrun") == 0 {
+			// (drawn last) a run between two others, inside at least one open tag, holding nothing but a blank: the
+			// usual way to separate two styled words; it is a run of the line like any other
+			for i := range c.Doc.Cues {
+				for j := range c.Doc.Cues[i].Lines {
+					rs := c.Doc.Cues[i].Lines[j].Runs
+					for k := 1; k+1 < len(rs); k++ {
+						if len(rs[k].Tags) > 0 && rs[k].StartAt == 0 && rs[k+1].StartAt == 0 && strings.TrimSpace(rs[k-1].Text) != "" && strings.TrimSpace(rs[k+1].Text) != "" &&
+							!strings.HasSuffix(rs[k-1].Text, " ") && !strings.HasPrefix(rs[k+1].Text, " ") &&
+							fmt.Sprint(rs[k].Tags) != fmt.Sprint(rs[k-1].Tags) && fmt.Sprint(rs[k].Tags) != fmt.Sprint(rs[k+1].Tags) {
+							rs[k].Text = " "
+							blankRuns++
+						}
+					}
+				}
+			}
+		}
 		b := renderVTT(c.Doc, c.Rend)
 		nt, ls := c02Labels(c.Doc, &c.Rend)
+		if blankRuns > 0 {
+			ls = append(ls, "blank-only-run-inside-a-tag")
+		}
 		if aligned {
 			ls = append(ls, "cr-at-end-of-4096-byte-block")
 		}
